@@ -42,12 +42,13 @@ const TXN: usize = 256;
 const MAXP: usize = 18;
 
 fn prepare_step(port0: bool, cids: &[u8], sticky: &[u8]) {
+    crate::mac::verif_kani_lorawan_device_mac_common::vinit();
     let probe: usize = kani::any();
     model::reset(probe);
     // functional consistency of the block cipher model is not needed here (every keystream block
     // has a distinct input) and its Ackermann loop is unrolled once per keystream iteration
     unsafe { model::CONSISTENT = false; }
-    let region = region::Configuration::new(rt::REGIONS[0]);
+    let region = region::Configuration::new(rt::region_ut(0));
     let cfg = mc::any_configuration();
     kani::assume(mc::cfg_inv(&cfg, &region));
     let mut s = any_session(cids);
@@ -64,60 +65,60 @@ fn prepare_step(port0: bool, cids: &[u8], sticky: &[u8]) {
     let fcnt = s.prepare_buffer::<TXN>(&send, &mut tx, &cfg, &region);
 
     // ---- reference ---------------------------------------------------------------------------
-    assert!(fcnt == pre.fcnt_up, "C06: the frame is built with the current FCntUp");
-    assert!(s.fcnt_up == pre.fcnt_up, "C06: building a frame does not consume the counter");
+    crate::vcheck!(fcnt == pre.fcnt_up, "C06: the frame is built with the current FCntUp");
+    crate::vcheck!(s.fcnt_up == pre.fcnt_up, "C06: building a frame does not consume the counter");
     let q = uh::pending(&pre.uplink);
     let fol = if port0 { 0 } else { q.len() };
     let body = if port0 { q.len() } else { plen };
     let has_port = true; // the implementation always writes FPort for a data request
     let total = 1 + 7 + fol + 1 + body + 4;
     let f = tx.as_ref_for_read();
-    assert!(f.len() == total, "C12: uplink length = MHDR + FHDR + FOpts + FPort + FRMPayload + MIC");
-    assert!(f[0] == if confirmed { 0x80 } else { 0x40 }, "C12: MHDR carries the message type the application requested");
+    crate::vcheck!(f.len() == total, "C12: uplink length = MHDR + FHDR + FOpts + FPort + FRMPayload + MIC");
+    crate::vcheck!(f[0] == if confirmed { 0x80 } else { 0x40 }, "C12: MHDR carries the message type the application requested");
     let addr = *pre.devaddr.as_wire_bytes();
-    assert!(f[1] == addr[0] && f[2] == addr[1] && f[3] == addr[2] && f[4] == addr[3], "C12: DevAddr of the session");
+    crate::vcheck!(f[1] == addr[0] && f[2] == addr[1] && f[3] == addr[2] && f[4] == addr[3], "C12: DevAddr of the session");
     let lower = ref_lower(&region, cfg.data_rate as u8).is_some();
     let exp_fctrl = (if cfg.adr_enabled { 0x80 } else { 0 })
         | (if cfg.adr_enabled && pre.adr_ack_cnt >= 64 && lower { 0x40 } else { 0 })
         | (if pre.uplink.confirms_downlink() { 0x20 } else { 0 })
         | fol as u8;
-    assert!(f[5] & 0x80 == exp_fctrl & 0x80, "C12: ADR bit exactly when ADR is enabled");
-    assert!(f[5] & 0x40 == exp_fctrl & 0x40, "C12: ADRACKReq exactly when ADR on, >= 64 uplinks without downlink and a lower data rate exists");
-    assert!(f[5] & 0x20 == exp_fctrl & 0x20, "C12: ACK bit exactly when an accepted confirmed downlink is unacknowledged");
-    assert!(f[5] & 0x10 == 0, "C12: FPending is not set on uplinks");
-    assert!(f[5] & 0x0f == fol as u8, "C08: FOptsLen = pending MAC answers");
-    assert!(f[6] == pre.fcnt_up as u8 && f[7] == (pre.fcnt_up >> 8) as u8, "C06: low 16 bits of FCntUp on the wire");
+    crate::vcheck!(f[5] & 0x80 == exp_fctrl & 0x80, "C12: ADR bit exactly when ADR is enabled");
+    crate::vcheck!(f[5] & 0x40 == exp_fctrl & 0x40, "C12: ADRACKReq exactly when ADR on, >= 64 uplinks without downlink and a lower data rate exists");
+    crate::vcheck!(f[5] & 0x20 == exp_fctrl & 0x20, "C12: ACK bit exactly when an accepted confirmed downlink is unacknowledged");
+    crate::vcheck!(f[5] & 0x10 == 0, "C12: FPending is not set on uplinks");
+    crate::vcheck!(f[5] & 0x0f == fol as u8, "C08: FOptsLen = pending MAC answers");
+    crate::vcheck!(f[6] == pre.fcnt_up as u8 && f[7] == (pre.fcnt_up >> 8) as u8, "C06: low 16 bits of FCntUp on the wire");
     let k: usize = kani::any();
     if k < fol {
-        assert!(f[8 + k] == q[k], "C08: FOpts carries the pending answers in order");
+        crate::vcheck!(f[8 + k] == q[k], "C08: FOpts carries the pending answers in order");
     }
-    assert!(f[8 + fol] == fport, "C12: FPort");
-    assert!(!s.uplink.confirms_downlink(), "C12: the ACK is sent once");
-    assert!(s.confirmed == confirmed, "C12: confirmed flag remembered for the receive windows");
+    crate::vcheck!(f[8 + fol] == fport, "C12: FPort");
+    crate::vcheck!(!s.uplink.confirms_downlink(), "C12: the ACK is sent once");
+    crate::vcheck!(s.confirmed == confirmed, "C12: confirmed flag remembered for the receive windows");
     // crypto: one keystream block per 16 bytes under the key selected by FPort, full counter
     let nblocks = (body + 15) / 16;
     unsafe {
-        assert!(model::ENC_N == nblocks, "C06: keystream blocks");
+        crate::vcheck!(model::ENC_N == nblocks, "C06: keystream blocks");
         let key = if port0 { model::pack(pre.nwkskey.as_ref()) } else { model::pack(pre.appskey.as_ref()) };
         let j: usize = kani::any();
         if j < nblocks {
             let e = model::ENC[j];
-            assert!(e.key == key, "C06: FRMPayload key by FPort");
-            assert!(e.input == ai(0, addr, pre.fcnt_up, (j + 1) as u8), "C06: encryption uses the full 32-bit FCntUp (block A_i)");
+            crate::vcheck!(e.key == key, "C06: FRMPayload key by FPort");
+            crate::vcheck!(e.input == ai(0, addr, pre.fcnt_up, (j + 1) as u8), "C06: encryption uses the full 32-bit FCntUp (block A_i)");
             let m: usize = kani::any();
             if m < body && m / 16 == j {
                 let plain = if port0 { q[m] } else { payload[m] };
-                assert!(f[9 + fol + m] == plain ^ model::byte(e.output, m % 16), "C06: ciphertext = plaintext xor keystream");
+                crate::vcheck!(f[9 + fol + m] == plain ^ model::byte(e.output, m % 16), "C06: ciphertext = plaintext xor keystream");
             }
         }
-        assert!(model::MIC_N == 1, "C06: one MIC");
+        crate::vcheck!(model::MIC_N == 1, "C06: one MIC");
         let mm = &model::MICS[0];
-        assert!(mm.key == model::pack(pre.nwkskey.as_ref()), "C06: MIC under NwkSKey");
-        assert!(mm.b0 == b0(0, addr, pre.fcnt_up, total - 4) && mm.len == total - 4, "C06: MIC uses the full 32-bit FCntUp (block B0)");
+        crate::vcheck!(mm.key == model::pack(pre.nwkskey.as_ref()), "C06: MIC under NwkSKey");
+        crate::vcheck!(mm.b0 == b0(0, addr, pre.fcnt_up, total - 4) && mm.len == total - 4, "C06: MIC uses the full 32-bit FCntUp (block B0)");
         if probe < total - 4 {
-            assert!(mm.probe == f[probe], "C06: MIC covers the frame");
+            crate::vcheck!(mm.probe == f[probe], "C06: MIC covers the frame");
         }
-        assert!(f[total - 4] == mm.out[0] && f[total - 3] == mm.out[1] && f[total - 2] == mm.out[2] && f[total - 1] == mm.out[3], "C06: MIC placed at the end");
+        crate::vcheck!(f[total - 4] == mm.out[0] && f[total - 3] == mm.out[1] && f[total - 2] == mm.out[2] && f[total - 1] == mm.out[3], "C06: MIC placed at the end");
     }
     // stickiness: RXParamSetupAns / RXTimingSetupAns / DlChannelAns stay queued, others are sent once
     let after = uh::pending(&s.uplink);
@@ -127,7 +128,7 @@ fn prepare_step(port0: bool, cids: &[u8], sticky: &[u8]) {
         exp_len += 1 + uh::ul_len(sticky[i]);
         i += 1;
     }
-    assert!(after.len() == exp_len, "C08: exactly the RXParamSetup/RXTimingSetup/DlChannel answers stay queued after an uplink");
+    crate::vcheck!(after.len() == exp_len, "C08: exactly the RXParamSetup/RXTimingSetup/DlChannel answers stay queued after an uplink");
     // compare contents: the retained commands are the sticky subsequence of the pending queue
     let mut src = 0;
     let mut dst = 0;
@@ -138,7 +139,7 @@ fn prepare_step(port0: bool, cids: &[u8], sticky: &[u8]) {
         if keep {
             let mut t = 0;
             while t < l {
-                assert!(after[dst + t] == q[src + t], "C08: a retained answer is repeated unchanged");
+                crate::vcheck!(after[dst + t] == q[src + t], "C08: a retained answer is repeated unchanged");
                 t += 1;
             }
             dst += l;
@@ -178,7 +179,8 @@ fn prepare_full_queue() {
 }
 
 fn rx2_step(ri: usize) {
-    let mut region = rt::any_region(rt::REGIONS[ri]);
+    crate::mac::verif_kani_lorawan_device_mac_common::vinit();
+    let mut region = rt::any_region(rt::region_ut(ri));
     let mut cfg = mc::any_configuration();
     kani::assume(mc::cfg_inv(&cfg, &region));
     kani::assume(rt::inv(&mut region, cfg.data_rate));
@@ -187,11 +189,11 @@ fn rx2_step(ri: usize) {
     let cfg0 = cfg;
     let resp = s.rx2_complete(&mut cfg, &region);
     if pre.fcnt_up == u32::MAX {
-        assert!(matches!(resp, Response::SessionExpired), "C06: counter space exhausted is reported as SessionExpired");
-        assert!(s.fcnt_up == u32::MAX, "C06: FCntUp never wraps");
+        crate::vcheck!(matches!(resp, Response::SessionExpired), "C06: counter space exhausted is reported as SessionExpired");
+        crate::vcheck!(s.fcnt_up == u32::MAX, "C06: FCntUp never wraps");
     } else {
-        assert!(s.fcnt_up == pre.fcnt_up + 1, "C06: closing the receive windows advances FCntUp by exactly one");
-        assert!(matches!(resp, Response::NoAck) == pre.confirmed && matches!(resp, Response::RxComplete) == !pre.confirmed, "C12: NoAck for confirmed uplinks, RxComplete otherwise");
+        crate::vcheck!(s.fcnt_up == pre.fcnt_up + 1, "C06: closing the receive windows advances FCntUp by exactly one");
+        crate::vcheck!(matches!(resp, Response::NoAck) == pre.confirmed && matches!(resp, Response::RxComplete) == !pre.confirmed, "C12: NoAck for confirmed uplinks, RxComplete otherwise");
         let mut exp_cnt = pre.adr_ack_cnt;
         let mut exp_dr = cfg0.data_rate as u8;
         if cfg0.adr_enabled {
@@ -202,15 +204,15 @@ fn rx2_step(ri: usize) {
                 }
             }
         }
-        assert!(s.adr_ack_cnt == exp_cnt, "C12: ADR ACK counter counts uplinks without downlink only while ADR is enabled");
-        assert!(cfg.data_rate as u8 == exp_dr, "C12: data rate steps to the next lower defined rate exactly after 96, 128, ... uplinks without downlink");
+        crate::vcheck!(s.adr_ack_cnt == exp_cnt, "C12: ADR ACK counter counts uplinks without downlink only while ADR is enabled");
+        crate::vcheck!(cfg.data_rate as u8 == exp_dr, "C12: data rate steps to the next lower defined rate exactly after 96, 128, ... uplinks without downlink");
         kani::cover!(cfg.data_rate as u8 != cfg0.data_rate as u8, "ADR back-off step");
     }
     let mut c2 = cfg;
     c2.data_rate = cfg0.data_rate;
-    assert!(mc::cfg_same(&c2, &cfg0), "C12: nothing but the data rate changes on its own");
-    assert!(mc::cfg_inv(&cfg, &region), "C04/C09: configuration invariant after ADR back-off");
-    assert!(rt::inv(&mut region, cfg.data_rate), "C04/C09: ADR back-off selected a data rate for which no enabled channel exists (transmission can never start)");
+    crate::vcheck!(mc::cfg_same(&c2, &cfg0), "C12: nothing but the data rate changes on its own");
+    crate::vcheck!(mc::cfg_inv(&cfg, &region), "C04/C09: configuration invariant after ADR back-off");
+    crate::vcheck!(rt::inv(&mut region, cfg.data_rate), "C04/C09: ADR back-off selected a data rate for which no enabled channel exists (transmission can never start)");
 }
 
 //@h id=rx2_complete_step_dyn props=C04,C06,C09,C12 tier=quick build=dev-eu868 cost=30 timeout=900
